@@ -595,6 +595,36 @@ theorem multistage_chain (depth : Nat) (n mx : V) (st : Sem) (sv' : V) (rest : L
             let acc' ← addStage depth acc r
             chainStages depth n mx rest acc') := rfl
 
+/-- the unused-votes chain: the next stage runs on the votes left after the quota of THIS stage's seats and
+    on the seats left after THIS stage's seats (not the running total) -/
+theorem unused_chain (depth : Nat) (st : Sem) (q : QuotaFn) (rest : List (Sem × Option QuotaFn)) (votes n acc : V) :
+    chainUnused depth ((st, some q) :: rest) votes n acc
+      = (do let r ← st { votes := votes, n := some n }
+            let acc' ← addStage depth acc r
+            let votes' ← useVotes q depth votes r n
+            let n' ← subtractGained depth n r
+            chainUnused depth rest votes' n' acc') := rfl
+
+theorem unused_chain_last (depth : Nat) (st : Sem) (rest : List (Sem × Option QuotaFn)) (votes n acc : V) :
+    chainUnused depth ((st, Option.none) :: rest) votes n acc
+      = (do let r ← st { votes := votes, n := some n }
+            let acc' ← addStage depth acc r
+            chainUnused depth rest votes n acc') := rfl
+
+/-- non-vacuity with whole-quota first rounds (QuotaDistributor leaves) and previous gains: three rounds,
+    Hare quota, 8 seats, C already holds one: wrapper = composition = {C:2, A:4, B:3} -/
+def hareQ : QuotaFn := fun tot n =>
+  if n.den = 1 ∧ 0 < n.num then .ok (tot / n) else .error eZeroDiv
+def qdHare : Ev := .leaf haSig (quotaLeaf false ⟨fun v k => v / (k : Rat), true, .error⟩
+  (fun v n => if n = 0 then .error eZeroDiv else .ok (v / (n : Rat))) true)
+
+example :
+    let t : Ev := .unusedVotes [qdHare, qdHare, haT] [hareQ, hareQ] 1
+    let a : Args := { votes := sv [(0, 4700), (1, 3400), (2, 1900)], n := some (.num 8), prev := some (sv [(2, 1)]) }
+    WellFormed t = true ∧ a.fits (takes t) = true
+    ∧ eval t a = .ok (sv [(2, 2), (0, 4), (1, 3)]) ∧ denote t a = .ok (sv [(2, 2), (0, 4), (1, 3)]) := by
+  decide +kernel
+
 /-- no stage: the previous gains unchanged -/
 theorem multistage_nil (depth : Nat) (n mx acc : V) : chainStages depth n mx [] acc = .ok acc := rfl
 
